@@ -206,7 +206,7 @@ func init() {
 			res := g.do("render " + w)
 			viol := oracleJSON(g, t, res)
 			rs := g.do("renderstr " + w)
-			if cl, f := parseRes(rs); strings.HasPrefix(cl, "err") && f["str"] != "-" {
+			if cl, f := parseRes(rs); strings.HasPrefix(cl, "err") && f["str"] != "-" && f["str"] != "" {
 				viol = append(viol, "Render returned text together with an error")
 			}
 			return viol, nil, hasRows(g, t)
@@ -256,7 +256,7 @@ func init() {
 					return
 				}
 				cl, f := parseRes(res)
-				if strings.HasPrefix(cl, "err") && f["str"] != "" && f["str"] != "-" {
+				if strings.HasPrefix(cl, "err") && f["str"] != "" && f["str"] != "-" && f["str"] != "" {
 					viol = append(viol, what+": error together with non-empty text")
 				}
 				if strings.HasPrefix(f["res2"], "PANIC") {
